@@ -355,7 +355,7 @@ fn c09(r: &Runner) {
         }
         bases.sort();
         bases.dedup();
-        let (vals, d) = pick(bits, if SWEEP { 150 } else if r.is_thorough() { 3000 } else { 700 }, &salt(r.seed));
+        let (vals, d) = pick(bits, if SWEEP { 150 } else if r.is_thorough() { 20_000 } else { 700 }, &salt(r.seed));
         let nb = bases.len();
         r.universe(&format!("{d} x {nb} bases: digits and round trips"), bits, vals.len(), |i, l| {
             let a = vu(&vals[i]);
@@ -450,7 +450,7 @@ fn c09(r: &Runner) {
     }
     // ---- formatting
     for &bits in ws {
-        let vals = if bits <= (if SWEEP { 7 } else { 10 }) { small_all(bits) } else { fmt_values(bits, if SWEEP { 60 } else if r.is_thorough() { 2500 } else { 500 }) };
+        let vals = if bits <= (if SWEEP { 7 } else { 10 }) { small_all(bits) } else { fmt_values(bits, if SWEEP { 60 } else if r.is_thorough() { 10_000 } else { 500 }) };
         r.universe(&format!("{} values x 40 specs x 6 traits", vals.len()), bits, vals.len(), |i, l| {
             let a = vu(&vals[i]);
             l.states(1);
@@ -494,10 +494,27 @@ fn c09(r: &Runner) {
             }
         });
     }
+    if r.is_thorough() && !SWEEP {
+        // ALL strings of length 3 over the character set, every radix
+        let n = chars.len();
+        for bits in [8usize, 64, 65, 256] {
+            r.universe(&format!("all {} strings of length 3 over the {n}-character set x radix 0..=66", n * n * n), bits, n * n, |i, l| {
+                for &c in &chars {
+                    let st: String = [chars[i / n], chars[i % n], c].iter().collect();
+                    let s = V::S(st);
+                    for radix in 0..=66u64 {
+                        l.states(1);
+                        exec(l, bits, Op::from_str_radix, &[s.clone(), V::N(radix as u128)]);
+                    }
+                    exec(l, bits, Op::from_str, &[s.clone()]);
+                }
+            });
+        }
+    }
     // round trips of formatted values and overflow-by-one strings in every radix
     for &bits in ws {
         let m = pow2(bits);
-        let (vals, d) = pick(bits, if SWEEP { 40 } else if r.is_thorough() { 1500 } else { 300 }, &[]);
+        let (vals, d) = pick(bits, if SWEEP { 40 } else if r.is_thorough() { 6000 } else { 300 }, &[]);
         let mut bv: Vec<BigUint> = vals.iter().map(|x| big(x)).collect();
         bv.extend([m.clone(), &m + 1u32, &m * 2u32, &m * 36u32, &m * 64u32 + 63u32]);
         r.universe(&format!("{d} + overflow-by-one values: text in every radix 2..=64 and prefixed forms"), bits, bv.len(), |i, l| {
